@@ -24,7 +24,7 @@ RULE = (
     "Non-trivial: >=1 definition outside the closure; distinct by (namespace, victim, replacement)."
 )
 ASSUMPTIONS = ["file names stay valid (a malformed file name in a lookup directory may legitimately be reported)"]
-MIN_MONITORS = {"baseline": 1500, "replacement": 4500, "print-log-compare": 4500, "shadow-namespace": 400}
+MIN_MONITORS = {"baseline": 1500, "replacement": 4500, "print-log-compare": 4500, "shadow-namespace": 400, "port-contender": 300}
 THOROUGH_MIN_SCALE = 10
 
 REPLACEMENTS = {
@@ -227,6 +227,70 @@ def shadow_experiment(ctx, pydsdl, rng, ns, base, paths, call, clos, case):
             shutil.rmtree(top, ignore_errors=True)
 
 
+def port_contender_experiment(ctx, pydsdl, rng, ns, base, paths, call, case):
+    """
+    read_files only: a TARGET with a fixed port-ID, and next to it (same root namespace directory) an unreferenced definition that is
+    not a target and whose file name claims the same port-ID under another name.  Port-ID collisions are a matter among the
+    definitions that are read; this one is not, so its text cannot matter (nor can its presence).
+    """
+    if call["api"] != "read_files":
+        return
+    rdir = base / ns["roots"][0]["dir"]
+    port = rng.choice([6200, 6144, 7167])
+    holder = rdir / ("%d.PortHolder.1.0.dsdl" % port)
+    contender = rdir / rng.choice(["%d.Contender.1.0.dsdl" % port, "zz_sub/%d.Contender.0.1.dsdl" % port, "%d.Contender.2.7.uavcan" % port])
+    if holder.exists() or contender.exists():
+        return
+    created_dir = not contender.parent.exists()
+    try:
+        rdir.mkdir(parents=True, exist_ok=True)
+        contender.parent.mkdir(parents=True, exist_ok=True)
+        holder.write_text("uint8 held\n@sealed\n")
+        contender.write_text("uint16 other\n@sealed\n")
+
+        def perform2():
+            prints = []
+            handler = lambda p, l, t: prints.append((os.path.relpath(str(p), base), l, t))  # noqa
+            try:
+                d, tr = pydsdl.read_files([paths[i] for i in call["targets"]] + [holder], [base / r["dir"] for r in ns["roots"]], print_output_handler=handler)
+                sig = ["ok", [type_sig(pydsdl, t, base) for t in d], [type_sig(pydsdl, t, base) for t in tr]]
+            except pydsdl.Error as ex:
+                sig = ["error", type(ex).__name__, os.path.relpath(str(ex.path), base) if ex.path else None, ex.line]
+            except Exception as ex:  # noqa
+                sig = ["foreign", type(ex).__name__, str(ex)[:200]]
+            return sig, prints
+
+        ctx.mon("baseline")
+        sig1, prints1 = perform2()
+        for kind in rng.sample(["garbage", "failing-assert", "print", "bad-width", "syntax-error", "missing-sealed", "service", "unresolvable-reference", "empty"], 3):
+            contender.write_text(REPLACEMENTS[kind], encoding="utf-8")
+            ctx.mon("replacement")
+            ctx.mon("port-contender")
+            sig2, prints2 = perform2()
+            c2 = dict(case, kind="port-contender/" + kind, victim=os.path.relpath(str(contender), base), call=call)
+            if sig2 != sig1:
+                ctx.violation("C19/outcome-changed/port-contender", "read_files: replacing the unreferenced non-target %s (same port-ID as the target %s) by %s changed the outcome: %r -> %r" % (
+                    c2["victim"], holder.name, kind, str(sig1)[:300], str(sig2)[:300]), c2)
+            ctx.mon("print-log-compare")
+            if sorted(prints2) != sorted(prints1):
+                ctx.violation("C19/print-log-changed/port-contender", "print log changed: %r -> %r" % (prints1[:5], prints2[:5]), c2)
+            if any("VICTIM-WAS-EVALUATED" in x for _p, _l, x in prints2):
+                ctx.violation("C19/victim-evaluated", "@print of the unreferenced %s was delivered" % c2["victim"], c2)
+            ctx.case((GN.signature(ns), "port-contender", kind, contender.name), True, classes=["api-read_files", "replacement-port-contender"])
+        # its mere presence does not matter either
+        contender.unlink()
+        sig3, _p3 = perform2()
+        if sig3 != sig1:
+            ctx.violation("C19/outcome-changed/port-contender", "read_files: removing the unreferenced non-target %s changed the outcome: %r -> %r" % (contender.name, str(sig1)[:300], str(sig3)[:300]),
+                          dict(case, kind="port-contender/removed", call=call))
+    finally:
+        for p in (holder, contender):
+            if p.exists():
+                p.unlink()
+        if created_dir:
+            shutil.rmtree(contender.parent, ignore_errors=True)
+
+
 def run_case(ctx, pydsdl, seed, nrep, workdir):
     rng = random.Random(seed)
     ns = GN.gen_namespace(rng, n_roots=rng.choice([2, 2, 3]), deprecated=rng.choice([0.0, 0.2, 0.5]))
@@ -281,6 +345,8 @@ def run_case(ctx, pydsdl, seed, nrep, workdir):
             twin_experiment(ctx, pydsdl, rng, ns, base, paths, call, clos, case)
         if rng.random() < 0.6:
             shadow_experiment(ctx, pydsdl, rng, ns, base, paths, call, clos, case)
+        if rng.random() < 0.5:
+            port_contender_experiment(ctx, pydsdl, rng, ns, base, paths, call, case)
         if not outside:
             return ns, 0
         opened_victims = 0
